@@ -11,6 +11,7 @@ package harness
 import (
 	"encoding/json"
 	"fmt"
+	ethcrypto "github.com/ethereum/go-ethereum/crypto"
 	"math/big"
 	"os"
 	"path/filepath"
@@ -239,6 +240,16 @@ func (lv *c10Live) execReal(e *Env, c int, op *c10Op) (recorded, ok bool) {
 		}
 	}
 	op.GasUsed = fmt.Sprint(gasUsed)
+	if to == nil {
+		// a creation: the hook runs after the code of the new contract exists, so the "holds code" oracle the model is
+		// given must be the one at hook time (for calls code does not change and the list taken before is the same)
+		created := ethcrypto.CreateAddress(from, nonce)
+		lv.universe = append(lv.universe, created)
+		codes = codes[:0]
+		for _, x := range lv.codeList() {
+			codes = append(codes, lv.tab.Addr(x))
+		}
+	}
 	lv.obs = c10Observe(f, lv.ctx, lv.probe)
 	// ethermint's RefundGas (not csr) returns limit - used from the collector to the sender after the hooks;
 	// that part of the collector's change is put back so that the projection shows the csr hook alone
